@@ -93,6 +93,9 @@ var renderableBytesRE = regexp.MustCompile(`^[\a\x08\x1b\f\n\r\t\v -~]+$`)
 func (b Bytes) Format(f fmt.State, verb rune) {
 	switch verb {
 	case 'v':
+		if b.offset != 0 {
+			fu.Fprintf(f, `%d\`, b.offset)
+		}
 		fu.WriteString(f, "<<")
 		if renderableBytesRE.Match(b.b) {
 			reprStr(string(b.b), f)
